@@ -1,11 +1,377 @@
+import Afkak.ClientCache
+import Afkak.ClientNet
+import Afkak.Monitor.C08
 import Driver.Util
-/-! Driver for the `Client` component (stub until the component is built). -/
-namespace Driver.Client
+/-!
+Line-protocol driver for the `client` component (exe `model_client`).
 
-def step (st : Unit) (_line : String) : Unit × List String := (st, ["bad-op"])
+Tokens: broker `id@host:port`; lists comma-separated, `-` = empty; topic metadata
+`name/err/perr:part:leader|perr:part:leader` joined by `;`; keys `topic:part`.
+-/
+namespace Driver.Client
+open Afkak.ClientCache Driver
+
+def splitList (sep : String) (s : String) : List String :=
+  if s == "-" || s == "" then [] else s.splitOn sep
+
+def parseBroker (s : String) : Option Broker :=
+  match s.splitOn "@" with
+  | [i, hp] => match hp.splitOn ":" with
+    | [h, p] => do some { nodeId := ← i.toInt?, host := h, port := ← p.toInt? }
+    | _ => none
+  | _ => none
+
+def parseBrokers (s : String) : Option (List Broker) := (splitList "," s).mapM parseBroker
+
+def parsePart (s : String) : Option PartMeta :=
+  match s.splitOn ":" with
+  | [e, p, l] => do some { err := ← e.toInt?, part := ← p.toInt?, leader := ← l.toInt? }
+  | _ => none
+
+def parseTopic (s : String) : Option TopicMeta :=
+  match s.splitOn "/" with
+  | [n, e, ps] => do some { name := n, err := ← e.toInt?, parts := ← (splitList "|" ps).mapM parsePart }
+  | _ => none
+
+def parseTopics (s : String) : Option (List TopicMeta) := (splitList ";" s).mapM parseTopic
+
+def parseKey (s : String) : Option TP :=
+  match s.splitOn ":" with
+  | [t, p] => do some (t, ← p.toInt?)
+  | _ => none
+
+def parseKeys (s : String) : Option (List TP) := (splitList "," s).mapM parseKey
+
+def parseBool (s : String) : Option Bool := if s == "1" then some true else if s == "0" then some false else none
+
+def parseGroup (s : String) : Option String := if s == "-" then none else some s
+
+def showBroker (b : Broker) : String := s!"{b.nodeId}@{b.host}:{b.port}"
+
+def showList (l : List String) : String := if l.isEmpty then "-" else ",".intercalate l
+
+def showNats (l : List Nat) : String := showList (l.map toString)
+
+def dump (c : Cache) : List String :=
+  [ "brokers " ++ showList (c.brokers.map (fun e => showBroker e.2)),
+    "clients " ++ showList (c.clients.map (fun e => showBroker e.2)),
+    "t2b " ++ showList (c.t2b.map (fun e => s!"{e.1.1}:{e.1.2}=" ++ (match e.2 with | some b => showBroker b | none => "none"))),
+    "parts " ++ showList (c.topicParts.map (fun e => s!"{e.1}=" ++ "+".intercalate (e.2.map toString))),
+    "errs " ++ showList (c.topicErrs.map (fun e => s!"{e.1}={e.2}")),
+    "pmeta " ++ showList (c.partMeta.map (fun e => s!"{e.1.1}:{e.1.2}={e.2.err}:{e.2.leader}")),
+    "groups " ++ showList (c.groups.map (fun e => s!"{e.1}=" ++ showBroker e.2)) ]
+
+def showRouteErr : RouteErr → String
+  | .partitionUnavailable i => s!"error partitionUnavailable {i}"
+  | .leaderUnavailable i => s!"error leaderUnavailable {i}"
+  | .coordinatorNotAvailable => "error coordinatorNotAvailable"
+
+def showGroups (gs : List (Int × List Nat)) : String :=
+  if gs.isEmpty then "-" else ";".intercalate (gs.map (fun g => s!"{g.1}=" ++ showNats g.2))
+
+/-- `t:0#tag` -/
+def parseResp (s : String) : Option Resp :=
+  match s.splitOn "#" with
+  | [k, tag] => do some { key := ← parseKey k, tag := ← tag.toInt? }
+  | _ => none
+
+/-- `idx,idx=ok:<resps |-separated>` or `idx,idx=fail:Kind` -/
+def parseResult (s : String) : Option (List Nat × BrokerResult String) :=
+  match s.splitOn "=" with
+  | [is, r] => do
+    let idxs ← (splitList "," is).mapM (·.toNat?)
+    if r.startsWith "ok:" then
+      let rs ← (splitList "|" (r.drop 3).toString).mapM parseResp
+      some (idxs, .ok rs)
+    else if r.startsWith "fail:" then some (idxs, .fail (r.drop 5).toString)
+    else none
+  | _ => none
+
+def unhexStr (s : String) : Option String := (parseHex s).bind (fun bs => String.fromUTF8? (ByteArray.mk bs.toArray))
+
+def hexStr (s : String) : String := toHex s.toUTF8.toList
+
+def parseHostSpec (s : String) : Option HostSpec :=
+  match s.splitOn "=" with
+  | ["s", h] => (unhexStr h).map .str
+  | ["t", h, p] => do some (.tup (← unhexStr h) (← unhexStr p))
+  | _ => none
+
+/-! ### parsing observed cache dumps (6 tokens: brokers clients t2b parts errs groups) -/
+
+def parseEq (s : String) : Option (String × String) :=
+  match s.splitOn "=" with
+  | [a, b] => some (a, b)
+  | _ => none
+
+def parseOptBroker (s : String) : Option (Option Broker) :=
+  if s == "none" then some none else (parseBroker s).map some
+
+def parseCache (ws : List String) : Option Cache :=
+  match ws with
+  | [bs, cls, t2b, parts, errs, groups] => do
+    let bs ← parseBrokers bs
+    let cls ← parseBrokers cls
+    let t2b ← (splitList "," t2b).mapM (fun e => do
+      let (k, v) ← parseEq e
+      some ((← parseKey k), (← parseOptBroker v)))
+    let parts ← (splitList "," parts).mapM (fun e => do
+      let (k, v) ← parseEq e
+      some (k, (← (splitList "+" v).mapM (·.toInt?))))
+    let errs ← (splitList "," errs).mapM (fun e => do
+      let (k, v) ← parseEq e
+      some (k, (← v.toInt?)))
+    let groups ← (splitList "," groups).mapM (fun e => do
+      let (k, v) ← parseEq e
+      some (k, (← parseBroker v)))
+    some { brokers := bs.map (fun b => (b.nodeId, b)), clients := cls.map (fun b => (b.nodeId, b)),
+           t2b := t2b, topicParts := parts, topicErrs := errs, partMeta := [], groups := groups }
+  | _ => none
+
+def verdict (b : Bool) : List String := [if b then "ok" else "fail"]
+
+def monStep (ws : List String) : Option (List String) :=
+  match ws with
+  | "mon-mirror" :: all :: bs :: ts :: closed :: rest =>
+    if rest.length != 12 then none else do
+    let before ← parseCache (rest.take 6)
+    let after ← parseCache (rest.drop 6)
+    let bs ← parseBrokers bs
+    let ts ← parseTopics ts
+    let all ← parseBool all
+    let closed ← parseInts closed
+    let parts := [("brokers", Afkak.Monitor.C08.brokersMirror after bs),
+      ("topics", (Afkak.Monitor.C08.respTopics ts).all (fun e => Afkak.Monitor.C08.topicMirror after e.2)),
+      ("others", Afkak.Monitor.C08.othersUntouched before after ts),
+      ("closes", Afkak.Monitor.C08.closesMissing before after bs all closed),
+      ("wf", Afkak.Monitor.C08.wf after)]
+    let bad := parts.filter (fun p => !p.2)
+    some (if Afkak.Monitor.C08.mirrorOk before after bs ts all closed && Afkak.Monitor.C08.wf after
+      then ["ok"] else ["fail " ++ ",".intercalate (bad.map (·.1))])
+  | "mon-invalidate" :: g :: examined :: rest => do
+    let after ← parseCache rest
+    some (verdict (Afkak.Monitor.C08.invalidateOk after (parseGroup g) (← parseKeys examined)))
+  | "mon-allinvalid" :: rest => do
+    let c ← parseCache rest
+    some (verdict (Afkak.Monitor.C08.allInvalid c))
+  | _ => none
+
+
+/-! ### ClientNet: events in, observations out -/
+section Net
+open Afkak.ClientNet
+
+def parseRat (s : String) : Option Rat :=
+  match s.splitOn "/" with
+  | [n] => n.toInt?.map (fun i => (i : Rat))
+  | [n, d] => do
+    let n ← n.toInt?
+    let d ← d.toNat?
+    if d == 0 then none else some ((n : Rat) / (d : Rat))
+  | _ => none
+
+def showRat (r : Rat) : String := s!"{r.num}/{r.den}"
+
+def showKind : Kind → String
+  | .clientClosed => "clientClosed"
+  | .cancelled => "cancelled"
+  | .afkakCancelled => "afkakCancelled"
+  | .brokerError e => s!"brokerError:{e}"
+  | .unavailable => "unavailable"
+  | .partitionUnavailable => "partitionUnavailable"
+  | .leaderUnavailable => "leaderUnavailable"
+  | .twTimeout => "twTimeout"
+  | .connLost => "connLost"
+  | .connFailed => "connFailed"
+  | .other c => s!"other:{c}"
+
+def parseKind (s : String) : Option Kind :=
+  match s.splitOn ":" with
+  | ["clientClosed"] => some .clientClosed
+  | ["cancelled"] => some .cancelled
+  | ["afkakCancelled"] => some .afkakCancelled
+  | ["brokerError", e] => e.toInt?.map .brokerError
+  | ["unavailable"] => some .unavailable
+  | ["partitionUnavailable"] => some .partitionUnavailable
+  | ["leaderUnavailable"] => some .leaderUnavailable
+  | ["twTimeout"] => some .twTimeout
+  | ["connLost"] => some .connLost
+  | ["connFailed"] => some .connFailed
+  | ["other", c] => some (.other c)
+  | _ => none
+
+def showOpRes : OpRes → String
+  | .okTrue => "ok True"
+  | .okNone => "ok None"
+  | .responses tags => "responses " ++ showInts tags
+  | .failedPayloads tags failed => "failedPayloads " ++ showInts tags ++ " " ++ showList (failed.map (fun f => s!"{f.1}:{showKind f.2}"))
+  | .simple e => s!"simple {e}"
+  | .fail k => "fail " ++ showKind k
+
+def showTimerWhat : TimerWhat → String
+  | .mrtb k => s!"mrtb:{k}"
+  | .boot j => s!"boot:{j}"
+
+def showWhat : ReqWhat → String
+  | .metadata ts => "meta:" ++ (if ts.isEmpty then "-" else "+".intercalate ts)
+  | .coord g => s!"coord:{g}"
+  | .payloads _ keys =>
+    let ks := sortHP keys
+    "payloads:" ++ (if ks.isEmpty then "-" else "+".intercalate (ks.map (fun k => s!"{k.1}:{k.2}")))
+  | .group g => s!"group:{g}"
+
+def showOb : Ob → String
+  | .bcNew b n h p => s!"bcNew {b} {n} {h} {p}"
+  | .bcUpdate b h p => s!"bcUpdate {b} {h} {p}"
+  | .mk k b e w => s!"mk {k} {b} {if e then 1 else 0} {showWhat w}"
+  | .setTimer t d => s!"setTimer {showTimerWhat t} {showRat d}"
+  | .cancelTimer t => s!"cancelTimer {showTimerWhat t}"
+  | .bcCancel k => s!"bcCancel {k}"
+  | .fired k r => s!"fired {k} " ++ (match r with | none => "ok" | some kd => showKind kd)
+  | .bcDisconnect b => s!"bcDisconnect {b}"
+  | .bcClose b => s!"bcClose {b}"
+  | .down b => s!"down {b}"
+  | .bootConnect j h p => s!"bootConnect {j} {h} {p}"
+  | .bootCancel j => s!"bootCancel {j}"
+  | .bootWrite j => s!"bootWrite {j}"
+  | .bootLose j => s!"bootLose {j}"
+  | .result o r => s!"result {o} " ++ showOpRes r
+  | .closeFired o => s!"closeFired {o}"
+  | .raised o c => s!"raised {o} {c}"
+  | .late k => s!"late {k}"
+  | .badOp w => s!"bad-op {w}"
+
+/-- `t:0:err#tag` -/
+def parseItem (s : String) : Option (TP × Int × Int) :=
+  match s.splitOn "#" with
+  | [k, tag] => match k.splitOn ":" with
+    | [t, p, e] => do some ((t, ← p.toInt?), ← e.toInt?, ← tag.toInt?)
+    | _ => none
+  | _ => none
+
+def parsePayload : List String → Option Payload
+  | ["meta", bs, ts] => do some (.metadata (← parseBrokers bs) (← parseTopics ts))
+  | ["coord", e, b] => do some (.coord (← e.toInt?) (← parseBroker b))
+  | ["items", is] => do some (.items (← (splitList "," is).mapM parseItem))
+  | ["simple", e] => e.toInt?.map .simple
+  | ["none"] => some .none
+  | ["garbage"] => some .garbage
+  | _ => none
+
+def parseRes : List String → Option Res
+  | "ok" :: rest => (parsePayload rest).map .ok
+  | ["err", k] => (parseKind k).map .err
+  | _ => none
+
+def parseHostPort (s : String) : Option (String × Int) :=
+  match s.splitOn ":" with
+  | [h, p] => p.toInt?.map (fun p => (h, p))
+  | _ => none
+
+/-- split trailing `sh=`/`sd=` tokens off -/
+def splitEnv (ws : List String) : Option (List String × Env) :=
+  ws.foldlM (fun (acc : List String × Env) w =>
+    if w.startsWith "sh=" then do
+      let perms ← (splitList "/" (w.drop 3).toString).mapM (fun p => (splitList "." p).mapM (·.toNat?))
+      some (acc.1, { acc.2 with shuffles := perms })
+    else if w.startsWith "sd=" then do
+      let bs ← (splitList "," (w.drop 3).toString).mapM (·.toNat?)
+      some (acc.1, { acc.2 with syncDown := bs })
+    else some (acc.1 ++ [w], acc.2)) ([], {})
+
+def parseEv : List String → Option Ev
+  | ["load", o, ts] => do some (.load (← o.toNat?) (splitList "," ts))
+  | ["send", o, g, foe, ex, ks] => do some (.send (← o.toNat?) (← parseKeys ks) (parseGroup g) (← parseBool foe) (← parseBool ex))
+  | ["cload", o, g] => do some (.cload (← o.toNat?) g)
+  | ["srtc", o, g, m] => do some (.srtc (← o.toNat?) g (← if m == "-" then some none else (parseRat m).map some))
+  | ["cancel", o] => do some (.cancel (← o.toNat?))
+  | ["close", o] => do some (.close (← o.toNat?))
+  | ["rtopics", ts] => some (.resetTopics (splitList "," ts))
+  | "fire" :: k :: rest => do some (.fire (← k.toNat?) (← parseRes rest))
+  | ["down", b] => do some (.down (← b.toNat?))
+  | ["conn", b, v] => do some (.conn (← b.toNat?) (← parseBool v))
+  | ["bootok", j] => do some (.bootOk (← j.toNat?))
+  | ["bootfail", j] => do some (.bootFail (← j.toNat?))
+  | "bootreply" :: j :: rest => do some (.bootReply (← j.toNat?) (← parsePayload rest))
+  | ["bootlost", j] => do some (.bootLost (← j.toNat?))
+  | ["advance", dt] => do some (.advance (← parseRat dt))
+  | _ => none
+
+structure NetSt where
+  cfg : Cfg := { timeout := 10, disconnectOnTimeout := false, bootHosts := [] }
+  st : Afkak.ClientNet.St := {}
+
+def netStep (n : NetSt) (ws : List String) : Option (NetSt × List String) :=
+  match ws with
+  | ["cfg", t, dot, hosts] => do
+    let cfg : Cfg := { timeout := ← parseRat t, disconnectOnTimeout := ← parseBool dot, bootHosts := ← (splitList "," hosts).mapM parseHostPort }
+    some ({ cfg := cfg, st := {} }, ["ok"])
+  | ["ndump"] =>
+    some (n, dump n.st.cache ++
+      ["timers " ++ showList (n.st.timers.map (fun t => s!"{showTimerWhat t.what}@{showRat t.due}")),
+       "pending " ++ showNats ((n.st.reqs.filter (·.pending)).map (·.k)),
+       "now " ++ showRat n.st.now,
+       "closing " ++ (if n.st.closing then "1" else "0")])
+  | _ => do
+    let (ws', env) ← splitEnv ws
+    let ev ← parseEv ws'
+    let (st', obs) := Afkak.ClientNet.step n.cfg n.st env ev
+    some ({ n with st := st' }, obs.map showOb)
+
+end Net
+
+structure St where
+  cache : Cache := {}
+  net : NetSt := {}
+
+def cacheStep (c : Cache) (ws : List String) : Option (Cache × List String) :=
+  match ws with
+  | ["reset"] => some ({}, ["ok"])
+  | ["dump"] => some (c, dump c)
+  | ["merge", all, bs, ts] => do
+    let (c', closed) := mergeTopicMetadata c (← parseBrokers bs) (← parseTopics ts) (← parseBool all)
+    some (c', ["closed " ++ showInts (sortInts closed)])
+  | ["update-brokers", rm, bs] => do
+    let (c', closed) := updateBrokers c (← parseBrokers bs) (← parseBool rm)
+    some (c', ["closed " ++ showInts (sortInts closed)])
+  | ["client-add", i] => do
+    match getBrokerClient c (← i.toInt?) with
+    | some c' => some (c', ["ok"])
+    | none => some (c, ["keyerror"])
+  | ["coord", g, b] => do some (setCoordinator c g (← parseBroker b), ["ok"])
+  | ["reset-topic", ts] => some (resetTopics c (splitList "," ts), ["ok"])
+  | ["reset-group", g] => some (resetGroup c g, ["ok"])
+  | ["reset-all"] => some (resetAll c, ["ok"])
+  | ["handle", foe, g, rs] => do
+    let rs ← parseKeys rs
+    let (c', r) := handleResponses c (← parseBool foe) (parseGroup g) rs
+    some (c', [match r with | none => "ok" | some (.errno e) => s!"raise {e}" | some .typeError => "raise TypeError"])
+  | ["route", g, ks] => do
+    match route c (← parseKeys ks) (parseGroup g) with
+    | .ok gs => some (c, ["groups " ++ showGroups gs])
+    | .error e => some (c, [showRouteErr e])
+  | ["assemble", ks, rs] => do
+    let (resps, failed) := assemble (← parseKeys ks) (← (splitList ";" rs).mapM parseResult)
+    some (c, ["responses " ++ showInts (resps.map (·.tag)),
+              "failed " ++ showList (failed.map (fun f => s!"{f.1}:{f.2}"))])
+  | ["normhosts", hs] => do
+    match normalizeHosts (← (splitList "|" hs).mapM parseHostSpec) with
+    | some l => some (c, ["hosts " ++ showList (l.map (fun hp => s!"{hexStr hp.1}:{hp.2}"))])
+    | none => some (c, ["error"])
+  | _ => none
+
+def step (st : St) (line : String) : St × List String :=
+  let ws := words line
+  match cacheStep st.cache ws with
+  | some (c, out) => ({ st with cache := c }, out)
+  | none => match monStep ws with
+    | some out => (st, out)
+    | none => match netStep st.net ws with
+      | some (n, out) => ({ st with net := n }, out)
+      | none => (st, ["bad-op"])
 
 end Driver.Client
 
 def main : IO UInt32 := do
-  Driver.loop (← IO.getStdin) (← IO.getStdout) () Driver.Client.step
+  Driver.loop (← IO.getStdin) (← IO.getStdout) ({} : Driver.Client.St) Driver.Client.step
   return 0
